@@ -24,16 +24,22 @@ KEY_IDS = [0, 23, 24, 255, 256, 65535, 65536, 0x7FFFFFE0, 0xFFFFFFFF]
 AES_KEY = bytes(range(32))
 
 
+# key names are names: a dot in the name is part of the name ("fw_enc.v2" is the file fw_enc.v2.bin, not fw_enc.bin, which also exists)
+AES_KEYS = {"aes_key": AES_KEY, "fw_enc.v2": bytes(range(1, 33)), "fw_enc": bytes(range(2, 34)), "app.prod": bytes(range(3, 35)),
+            "key.bin": bytes(range(4, 36)), "with space": bytes(range(5, 37))}
+
+
 def aes_keys_dir():
     d = signing.keys_dir()
-    p = os.path.join(d, "aes_key.bin")
-    if not os.path.exists(p):
-        with open(p, "wb") as fh:
-            fh.write(AES_KEY)
+    for name, key in AES_KEYS.items():
+        p = os.path.join(d, name + ".bin")
+        if not os.path.exists(p):
+            with open(p, "wb") as fh:
+                fh.write(key)
     return d
 
 
-def run_encrypt(firmware: bytes, key_id: int, hash_alg: str, d: str):
+def run_encrypt(firmware: bytes, key_id: int, hash_alg: str, d: str, key_name: str = "aes_key"):
     from suit_generator import cmd_encrypt
     fw = os.path.join(d, "fw.bin")
     outd = os.path.join(d, "out")
@@ -48,7 +54,7 @@ def run_encrypt(firmware: bytes, key_id: int, hash_alg: str, d: str):
     os.environ["VERIF_KMS_RECORD"] = rec
     os.environ["REPO"] = str(common.REPO)
     try:
-        cmd_encrypt.main(encrypt_subcommand="encrypt-and-generate", firmware=fw, key_name="aes_key", key_id=key_id, context=aes_keys_dir(),
+        cmd_encrypt.main(encrypt_subcommand="encrypt-and-generate", firmware=fw, key_name=key_name, key_id=key_id, context=aes_keys_dir(),
                          hash_alg=hash_alg, kw_alg="direct", kms_script=str(common.VERIF / "harness" / "kms_recording.py"),
                          encrypt_script=str(common.REPO / "ncs" / "encrypt_script.py"), output_dir=outd)
         files = {f: open(os.path.join(outd, f), "rb").read() for f in os.listdir(outd)}
@@ -59,7 +65,7 @@ def run_encrypt(firmware: bytes, key_id: int, hash_alg: str, d: str):
     return res, recs
 
 
-def check_artifacts(drv, files, firmware, key_id, hash_alg, problems):
+def check_artifacts(drv, files, firmware, key_id, hash_alg, problems, key_name="aes_key"):
     need = {"encrypted_content.bin", "suit_encryption_info.bin", "plain_text_digest.bin", "plain_text_size.txt"}
     if set(files) != need:
         problems.append(f"output files are {sorted(files)}")
@@ -79,11 +85,11 @@ def check_artifacts(drv, files, firmware, key_id, hash_alg, problems):
     content = files["encrypted_content.bin"]
     from cryptography.hazmat.primitives.ciphers.aead import AESGCM
     try:
-        pt = AESGCM(AES_KEY).decrypt(bytes.fromhex(v["iv"]), content[16:] + content[:16], bytes.fromhex(v["aad"]))
+        pt = AESGCM(AES_KEYS[key_name]).decrypt(bytes.fromhex(v["iv"]), content[16:] + content[:16], bytes.fromhex(v["aad"]))
         if pt != firmware:
             problems.append("decryption yields a different plaintext")
     except Exception:
-        problems.append("AES-GCM decryption with the published IV, the Enc_structure of the published protected header and tag||ciphertext fails")
+        problems.append(f"AES-GCM decryption with the key named {key_name!r}, the published IV, the Enc_structure of the published protected header and tag||ciphertext fails")
     if files["plain_text_digest.bin"] != DIGESTS[hash_alg](firmware):
         problems.append("plain_text_digest.bin is not the digest of the plaintext")
     if files["plain_text_size.txt"] != str(len(firmware)).encode():
@@ -105,10 +111,12 @@ def work(args):
     firmware = bytes(rng.randrange(256) for _ in range(size))
     drv = common.worker_driver()
     out = {"hash": hashlib.sha1(firmware + f"{key_id}{hash_alg}".encode()).hexdigest(), "problems": [], "mismatch": None, "iv": None}
+    key_name = "aes_key" if index % 3 else sorted(AES_KEYS)[(index // 3) % len(AES_KEYS)]
+    out["key_name"] = key_name
     with tempfile.TemporaryDirectory(prefix="verif_c06_") as d:
-        res, recs = run_encrypt(firmware, key_id, hash_alg, d)
+        res, recs = run_encrypt(firmware, key_id, hash_alg, d, key_name)
     if "ok" not in res:
-        out["problems"].append("encrypt-and-generate failed: " + res["err"])
+        out["problems"].append(f"encrypt-and-generate with the key named {key_name!r} failed: " + res["err"])
         return out
     files = res["ok"]
     encs = [r for r in recs if r[0] == "encrypt"]
@@ -119,7 +127,7 @@ def work(args):
             out["mismatch"] = {"op": "enc.encrypt", "impl": {k: v.hex()[:300] for k, v in files.items()}, "model": {k: v[:300] for k, v in model.items()}}
     else:
         out["problems"].append(f"{len(encs)} KMS encrypt calls for one encryption")
-    v = check_artifacts(drv, files, firmware, key_id, hash_alg, out["problems"])
+    v = check_artifacts(drv, files, firmware, key_id, hash_alg, out["problems"], key_name)
     out["iv"] = v["iv"] if v else None
     return out
 
@@ -153,6 +161,8 @@ def generate_info_cases(drv, res, rng, tier):
             res.count("generate-info:" + ("ok" if "ok" in impl else impl["err"]))
             if impl != model:
                 res.mismatches.append({"op": "enc.generate", "case": [size, len(cek), key_id, kw], "impl": impl, "model": model})
+            if "ok" not in impl:
+                res.spec_failures.append({"case": [blob.hex()[:200], key_id, kw], "size": size, "what": f"generate-info refused a well-formed iv || tag || ciphertext blob of {size} bytes ({size - 28} bytes of ciphertext): " + impl["err"]})
             if "ok" in impl:
                 v = drv.call({"op": "spec.C06", "info": impl["ok"]["info"]})
                 if "ok" not in v:
@@ -191,6 +201,7 @@ def run(tier: str, seed: int, prop=PROP) -> int:
         res.nontrivial.add(o["hash"])
         res.count("size:" + (str(job[2]) if job[2] in sizes else "random"))
         res.count("digest:" + job[4])
+        res.count("key-name:" + o.get("key_name", "?"))
         if o["mismatch"]:
             res.mismatches.append({**o["mismatch"], "job": list(job)})
         for p in o["problems"]:
